@@ -136,6 +136,37 @@ RunResult WorldT::execute(json const& plan) const
             oo.field_disp_tol = 2 * di;
             oo.field_rel_tol = es;
         }
+        if (std::getenv("VSIM_TRACE"))
+        {
+            std::cerr.precision(17);
+            for (auto const& f : ex.hist.frames)
+            {
+                std::cerr << "frame " << f.step << " nprim=" << f.n_primaries << " kill=" << f.after_kill
+                          << " res(g,q,a,al)=" << f.res_generated << "," << f.res_queued << ","
+                          << f.res_active << "," << f.res_alive << " completed=" << f.completed
+                          << "\n";
+                for (int p = 0; p < 3; ++p)
+                    for (std::size_t s = 0; s < f.obs[p].size(); ++s)
+                    {
+                        auto const& o = f.obs[p][s];
+                        if (!o.active())
+                            continue;
+                        std::string act = o.post_action < prob->action_labels.size()
+                                              ? prob->action_labels[o.post_action]
+                                              : "-";
+                        std::cerr << "   " << (p == 0 ? "start" : p == 1 ? "pre  " : "post ")
+                                  << " slot " << s << " ev " << (int)o.event << " trk " << (int)o.track
+                                  << " par " << (int)o.parent << " n " << o.num_steps << " st "
+                                  << o.status << " p " << (int)o.particle << " E " << o.energy
+                                  << " pos (" << o.pos[0] << "," << o.pos[1] << "," << o.pos[2]
+                                  << ") dir (" << o.dir[0] << "," << o.dir[1] << "," << o.dir[2]
+                                  << ") vol " << (int)o.volume << " out " << (int)o.outside << " onb "
+                                  << (int)o.on_boundary << " len " << o.step_length << " dep "
+                                  << o.deposit << " act " << act << " nsec " << o.secondaries.size()
+                                  << "\n";
+                    }
+            }
+        }
         check_history(ex.hist, *prob, oo, rr);
         if (!ex.threw && !ex.budget_exhausted)
             check_tallies(ex.hist, *prob, rr);
